@@ -16,7 +16,7 @@ LEVEL = 'exploration'
 RULE = ('Cases: (circuit with hostile features, removed lines, origin sets) and (naming scheme: bases with bracket/underscore/plain index styles, gaps, indices >= 10, '
         '2-D, several bases sharing a prefix). A traversal case is non-trivial iff the circuit has an unconnected pin or a state element and >= 3 levels; a naming '
         'case iff it has an index >= 10 or two dimensions. Distinct = digest of the case.'
-        ' Two circuits per shard with nets of several hundred readers (forks with more than 255 branches); prefix lookups are repeated after count-preserving edits.')
+        ' Two circuits per shard with nets of several hundred readers (forks with more than 255 branches); prefix lookups are repeated after count-preserving edits; three shards build a chain 2^15 / 2^16 (+-) gates deep with short paths joining it and check every reported level.')
 ASSUMPTIONS = ['fan-in: a state element that feeds the cone is allowed but not required (MAY only); in combinational circuits MUST = MAY = transitive fan-in',
                'base names consist of letters (and inner underscores) only, so the index part of a name is unambiguous; one name is never a prefix path of another']
 REACH = {'circuit.traversals': ('circuit.py', 500, 570), 'circuit.locs': ('circuit.py', 270, 308)}
